@@ -210,6 +210,16 @@ def run_fn(case, ctx) -> None:
         return [base[k].detach().clone().requires_grad_(True) if base[k].is_floating_point() and k in op.diff else base[k].detach().clone() for k in tnames]
 
     key = f"C20:{case['fn']}:{backend}"
+    if case["seed"] % 3 == 0:
+        # history: a validation pass first - the same call made eagerly under torch.no_grad() / inference_mode before any
+        # gradient is ever taken (state remembered from that first use must not leak into the training-mode calls)
+        try:
+            with (torch.no_grad() if case["seed"] % 2 else torch.inference_mode()):
+                torch.manual_seed(0)
+                f(*[t.detach().clone() for t in leaves()])
+            ctx.count("history:eager-no_grad-pass-first")
+        except Exception:
+            pass
     torch.manual_seed(0)
     le = leaves()
     try:
@@ -492,6 +502,14 @@ def run_comp(case, ctx) -> None:
         gr = torch.autograd.grad(ys, [xi] + ps, ups, allow_unused=True)
         return (y if len(ys) == 1 and not isinstance(y, (tuple, list)) else torch.cat([t.reshape(-1) for t in ys])), gr
 
+    if case["seed"] % 3 == 0:
+        try:
+            with (torch.no_grad() if case["seed"] % 2 else torch.inference_mode()):
+                torch.manual_seed(0)
+                m(x.detach().clone(), tgt) if tgt is not None else m(x.detach().clone())
+            ctx.count("history:eager-no_grad-pass-first")
+        except Exception:
+            pass
     try:
         ye, ge = run(m)
     except Exception as e:
